@@ -27,7 +27,7 @@ import collections
 st=collections.defaultdict(lambda: [0,0,0,0])
 for mp in sorted(glob.glob('/verif/seeded/*/meta.json')):
     name=os.path.basename(os.path.dirname(mp)); m=json.load(open(mp))
-    rd={'b':2,'c':3,'d':4,'e':5,'f':6,'g':7,'h':8,'i':9,'j':10,'k':11}.get(name[-1],1)
+    rd={'b':2,'c':3,'d':4,'e':5,'f':6,'g':7,'h':8,'i':9,'j':10,'k':11,'l':12}.get(name[-1],1)
     det=m.get('detection',[])
     st[rd][0]+=1
     if any(d['verdict']=='caught' for d in det):
